@@ -21,8 +21,9 @@ impl PixelDataReader for UncompressedAdapter {
             .raw_pixel_data()
             .context(decode_error::MissingAttributeSnafu { name: "Pixel Data" })?;
 
+        let frame_size = frame_size_of(src);
         for fragment in pixeldata.fragments {
-            dst.extend_from_slice(&fragment);
+            dst.extend_from_slice(without_padding(&fragment, frame_size));
         }
 
         Ok(())
@@ -39,9 +40,25 @@ impl PixelDataReader for UncompressedAdapter {
             .frame_pixel_data(frame)
             .context(decode_error::FrameRangeOutOfBoundsSnafu)?;
 
-        dst.extend_from_slice(frame.as_ref());
+        dst.extend_from_slice(without_padding(frame.as_ref(), frame_size_of(src)));
 
         Ok(())
+    }
+}
+
+/// The number of bytes of one uncompressed frame,
+/// if the image attributes needed to tell are present.
+fn frame_size_of(src: &dyn PixelDataObject) -> Option<usize> {
+    let bytes_per_sample = (src.bits_allocated()? / 8) as usize;
+    Some(src.cols()? as usize * src.rows()? as usize * src.samples_per_pixel()? as usize * bytes_per_sample)
+}
+
+/// A frame of odd size is followed by one padding byte in its fragment
+/// (fragments always have an even length): leave that byte out.
+fn without_padding(fragment: &[u8], frame_size: Option<usize>) -> &[u8] {
+    match frame_size {
+        Some(n) if n % 2 == 1 && fragment.len() == n + 1 => &fragment[..n],
+        _ => fragment,
     }
 }
 
